@@ -1411,8 +1411,16 @@ func TestC11FailedBuild(t *testing.T) {
 // who holds it may close it - while, or before, the provider is closed. The
 // provider's Close covers that scope: it reports what failed in it when the
 // failure happened during the call, and nothing is closed twice.
-func TestC12RootHandle(t *testing.T) {
-	col := evid.New("C12", "root-scope-handle", "configurations biased to disposable services, a generated subset of registrations failing in Close(); scoped and transient services are resolved on the provider (owned by its root scope); then Close is called on the root scope obtained through provider.Get(Scope) and on the provider - one after the other, or overlapped: the root scope's Close is parked inside the first instance's Close(), the provider's Close is started and left to run until it returns or blocks, the root scope's Close is released; oracle per call (10 s bound): no hang, no panic; a call returns a DisposalError exactly when a failing Close() of something it covers ran between its start and its return; every instance closed exactly once; non-trivial = a failing instance owned by the root scope was closed while both calls were in progress")
+func TestC12RootHandle(t *testing.T) { runRootHandle(t, "C12") }
+
+// TestC10RootHandle / TestC11RootHandle: the same programs seen from the singletons: closing the
+// root scope does not touch them (C10: when the provider is closed and not before), and when the
+// provider is closed they go last, after everything the root scope owns (C11).
+func TestC10RootHandle(t *testing.T) { runRootHandle(t, "C10") }
+func TestC11RootHandle(t *testing.T) { runRootHandle(t, "C11") }
+
+func runRootHandle(t *testing.T, prop string) {
+	col := evid.New(prop, "root-scope-handle", "configurations biased to disposable services, a generated subset of registrations failing in Close(); scoped and transient services are resolved on the provider (owned by its root scope); then Close is called on the root scope obtained through provider.Get(Scope) and on the provider - one after the other, or overlapped: the root scope's Close is parked inside the first instance's Close(), the provider's Close is started and left to run until it returns or blocks, the root scope's Close is released; oracle per call (10 s bound): no hang, no panic; a call returns a DisposalError exactly when a failing Close() of something it covers ran between its start and its return; every instance closed exactly once; no singleton receives its Close before the Close of the provider has begun, and every Close of something the root scope owns precedes every Close of a singleton; non-trivial = a failing instance owned by the root scope was closed while both calls were in progress")
 	defer col.Flush()
 	rapid.Check(t, func(rt *rapid.T) {
 		cfg := kit.GenConfig(rt, dispOpts())
@@ -1561,6 +1569,37 @@ func TestC12RootHandle(t *testing.T) {
 				}
 				if f != nil {
 					break
+				}
+			}
+		}
+		if f == nil {
+			// the singletons: not before the provider's Close, and after everything the root scope owns
+			var provider *call
+			for _, c := range []*call{a, b} {
+				if c.what == "Close of the provider" {
+					provider = c
+				}
+			}
+			var lastRootOwned int64
+			for _, e := range x.W.AllEntries() {
+				if e.Inv != nil && e.ScopeTag == 0 && x.M.Regs[e.Reg].Life != kit.Singleton {
+					for _, seq := range e.CloseSeqs() {
+						if seq > lastRootOwned {
+							lastRootOwned = seq
+						}
+					}
+				}
+			}
+			for _, e := range x.W.AllEntries() {
+				if f != nil || e.Inv == nil || x.M.Regs[e.Reg].Life != kit.Singleton {
+					continue
+				}
+				for _, seq := range e.CloseSeqs() {
+					if seq < provider.from {
+						f = fail("C10", "not-early", "root-handle/singleton", "singleton %v was closed before the provider's Close began - by the Close of the root scope obtained through provider.Get(Scope)", e)
+					} else if seq < lastRootOwned {
+						f = fail("C11", "scopes-before-singletons", "root-handle", "singleton %v was closed while an instance owned by the root scope had not been closed yet (the root scope was being closed through its handle when the provider's Close began)", e)
+					}
 				}
 			}
 		}
